@@ -147,6 +147,9 @@ SIMPLE = [
     # a lambda is a scope of its own: its walrus binds the lambda's variable, its yield makes the lambda a generator
     S("lambda-walrus", "{n1} = (lambda: ({p} := E({e1}, 5)))()", cur="n1", special=True),
     S("lambda-yield", "{n1} = list((lambda: (yield E({e1}, {p})))())", cur=None, special=True),
+    # the annotation of a local is never evaluated by Python: evaluating it here would raise AttributeError
+    S("ann-raises", "{n1}: GNONE.nope = E({e1}, {p})", cur="n1", special=True),
+    S("declare-ann-raises", ["{n1}: GNONE.nope", "{n2} = E({e1}, {n1})"], cur="n2", special=True),
     S("mangled-read", "{n1} = E({e1}, K.__hid + {p})", cur="n1", flags=["inclass"], special=True),
     S("mangled-read-nested", "{n1} = E({e1}, K.__hid + {p})", cur="n1", flags=["inclass", "nested"], special=True),
     S("weird-eq", "{n1} = NOEQ(E({e1}, {p}))", special=True),
@@ -200,7 +203,7 @@ CORE3 = frozenset({"assign", "chain", "aug", "unpack-tuple", "unpack-star", "att
                    "yield-recv", "if", "if-else", "for", "for-else", "while", "try-except", "try-finally", "with",
                    "break", "continue", "del"})
 # the `odd` program set: every program contains at least one of ODD, the rest comes from ODD_BASE
-ODD = frozenset({"none-global-read", "weird-eq", "multiline-str", "mangled-read", "mangled-read-nested", "sub-index-walrus", "default-walrus",
+ODD = frozenset({"none-global-read", "weird-eq", "multiline-str", "mangled-read", "mangled-read-nested", "ann-raises", "sub-index-walrus", "default-walrus",
                  "class-base-walrus", "lambda-walrus", "lambda-yield", "with-two-dep", "return-yield", "arg-yield", "assert-yield", "sub-index-yield",
                  "default-yield", "ann-yield", "attr-yield", "for-list-target", "with-list-target", "for-yield-iter",
                  "while-yield-test", "if-yield-test", "with-yield-item"})
